@@ -125,6 +125,14 @@ def shapes():
 
             add(cls, f"list-source-{n}", b2)
 
+            def b3(cls=cls, flag=flag, n=n):
+                # aggregates are written as lists AND as tuples (`Variable[Array[...]]((a, b))`)
+                t = M(f"{cls}.target")
+                srcs = [M(f"{cls}.source{i}") for i in range(n)]
+                return getattr(ir, cls)(t, tuple(srcs)), [(t, flag)] + [(s, R) for s in srcs]
+
+            add(cls, f"tuple-source-{n}", b3)
+
     def b_reset():
         o = M("ResetInstance.obj")
         return ir.ResetInstance(o), [(o, W)]
